@@ -367,6 +367,14 @@ func readRemaining(r io.Reader, n int) ([]byte, error) {
 	return buf.Bytes(), nil
 }
 
+// endOfPacket returns an error if bytes are left over behind the last field of a packet.
+func endOfPacket(r *bytes.Buffer) error {
+	if r.Len() != 0 {
+		return codes.ErrMalformed
+	}
+	return nil
+}
+
 func readUint16(r *bytes.Buffer) (uint16, error) {
 	if r.Len() < 2 {
 		return 0, codes.ErrMalformed
